@@ -80,6 +80,8 @@ NEEDS.update({
  "C15-W": "'all digits dropped' shortcut from a 1233/4096 digit-count bound: integers written with >= 205 fraction zeros (1.000...0) convert to 0",
  "C16-W": "word-at-a-time count of trailing nines forgets the words already counted: {:.N} carry through a run of >= 8 nines ending at a word boundary",
  "C17-W": "19-digit-word parser slices at byte offsets counted from the end: a multi-byte character straddling such an offset in a string token of more than 19 bytes panics",
+ "C13-W": "negative arguments summed directly when a digit budget computed from the STORED digit count allows it, while the series works on the normalised argument: x <= -25 written with >= 12 trailing zeros (-30.00000000000000000)",
+ "C18-W": "with_scale extension shortcut multiplies in i128: coefficient in [2^127/10^19, 2^64) extended by exactly 19 digits overflows (panic in debug, wrong sign and value in release)",
  "C19-W": "bit-length pre-test of the comparison uses log2(10) = 3.32193 (rounded up): after the accumulator has gathered a scale gap of 643 (1140, 1286, ...) against a power-of-two coefficient, == and cmp say Less for equal / greater values",
  "C20-W": "u64 fast path of division for configured precision <= 38 rounds with the wrong digit budget: only builds with RUST_BIGDECIMAL_DEFAULT_PRECISION <= 38, small operands, quotient digits beyond the precision",
  "C20-H": "division truncates remainder and denominator when the denominator has more than P+20 digits: exact-tie quotients produced by the digit loop come out one unit low (1.25 at precision 2 with 25-digit operands)",
